@@ -118,6 +118,59 @@ func c14r7(c *Ctx) {
 			}
 		})
 		cuts.AddEdges(ltZeroEdges(fn, func(v ssa.Value) bool { return ints[v] })...)
+		// the same test made in a boolean helper handed the integer, or kept in a local boolean
+		top := cxTop(fn)
+		deep := c.cxFactCuts(top, func(fr *cxFrame, a Atom) (bool, bool) {
+			if a.Op == token.ILLEGAL || a.X == nil || a.Y == nil {
+				return false, false
+			}
+			isR := func(v ssa.Value) bool {
+				r := fr.resolve(v)
+				return r.fr == top && ints[stripConv(r.v)]
+			}
+			op := a.Op
+			var k int64
+			var isK bool
+			if isR(a.X) {
+				k, isK = constInt(a.Y)
+			} else if isR(a.Y) {
+				k, isK = constInt(a.X)
+				switch op {
+				case token.LSS:
+					op = token.GTR
+				case token.LEQ:
+					op = token.GEQ
+				case token.GTR:
+					op = token.LSS
+				case token.GEQ:
+					op = token.LEQ
+				}
+			}
+			if !isK {
+				return false, false
+			}
+			var tE, fE bool
+			switch op {
+			case token.LSS:
+				tE = k <= 0
+			case token.LEQ:
+				tE = k <= -1
+			case token.GEQ:
+				fE = k <= 0
+			case token.GTR:
+				fE = k <= -1
+			}
+			if a.Neg {
+				tE, fE = fE, tE
+			}
+			return tE, fE
+		}, 3)
+		for e := range deep.Edges {
+			cuts.AddEdges(e)
+		}
+		for v := range deep.Via {
+			cuts.Via[v] = true
+		}
 		bad := false
 		for _, r := range c.returnsOf(fn) {
 			if r.Class != "error" {
@@ -516,7 +569,15 @@ func c06r12(c *Ctx) {
 	isStore := storeHit(exp)
 	hit := func(in ssa.Instruction) bool {
 		st, ok := in.(*ssa.Store)
-		return ok && isStore(in) && mentions(st.Val, isClockCall)
+		if !ok || !isStore(in) {
+			return false
+		}
+		if mentions(st.Val, isClockCall) {
+			return true
+		}
+		// a setter: the value is the helper's parameter, computed by the caller
+		_, isPar := stripConv(st.Val).(*ssa.Parameter)
+		return isPar && st.Parent() != fn
 	}
 	n := len(offEdges(fn))
 	cuts := c.satisfyingCuts(fn, hit, offEdges, 3, nil)
